@@ -87,7 +87,7 @@ def gen_case(seed):
                 tree["side%d.txt" % lvl] = bytes([lvl])
     elif shape < 0.09:
         # one wide directory
-        width = rnd.choice([90, 130, 260])
+        width = rnd.choice([40, 40, 70, 130])
         sub = {"n%03d" % i: (b"" if i % 3 else bytes([i & 0xFF])) for i in range(width)}
         sub["sub"] = {"x": b"x"}
         tree = {"wide": sub, "f": b"f"}
@@ -292,7 +292,7 @@ def run_case(case):
     sc = {"seed": case["seed"], "net": net}
     viol = []
     info = {}
-    world = scenario.setup_world(sc, max_steps=2_000_000)
+    world = scenario.setup_world(sc, max_steps=3_000_000)
     with world:
         scenario.apply_net(world.net, net)
         cls = NoMlsxServer if case.get("no_mlsx") else aioftp.Server
@@ -635,7 +635,7 @@ def main(argv=None):
         print("not reproduced")
         return 0
     quick = a.tier == "quick"
-    ev = common.Evidence(PROP, a.tier, a.seed, "exploration", "generated trees (depth <= 3, fan-out <= 3, empty directories, empty files, repeated names; one in twenty a chain 12..64 levels deep, one in twenty-five a directory with 90..260 entries) x operation {upload dir, upload file, download dir, download file, recursive list, recursive remove} x destination {'', 1..3 components, absolute, '/'} x write_into x working directory {/, /w, /w/x} x block size x {MLSD server, LIST-fallback server}; remote / local trees are compared byte for byte with the tutorial's placement rule; non-trivial = every run; distinct = distinct run digests One case in five is a sequence of 3..7 operations on one connection checked against a model of the remote tree; one in ten downloads a tree with an unreadable entry.")
+    ev = common.Evidence(PROP, a.tier, a.seed, "exploration", "generated trees (depth <= 3, fan-out <= 3, empty directories, empty files, repeated names; one in twenty a chain 12..64 levels deep, one in twenty-five a directory with 40..130 entries) x operation {upload dir, upload file, download dir, download file, recursive list, recursive remove} x destination {'', 1..3 components, absolute, '/'} x write_into x working directory {/, /w, /w/x} x block size x {MLSD server, LIST-fallback server}; remote / local trees are compared byte for byte with the tutorial's placement rule; non-trivial = every run; distinct = distinct run digests One case in five is a sequence of 3..7 operations on one connection checked against a model of the remote tree; one in ten downloads a tree with an unreadable entry.")
     rep = common.Reporter(PROP, ev)
     deadline = time.time() + (a.budget or (60 if quick else 1200))
     n = 3000 if quick else 400000
